@@ -287,54 +287,21 @@ def r09_1(ctx):
 
 @rule("R09.2", 8, "each trial gets its own fresh (rewound) borrow; only a trial's `true` selects its format", ["C09"])
 def r09_2(ctx):
-    lib = ctx.lib
+    ts = common.trial_sequence(ctx.facts)
     trials = common.trial_functions(ctx.facts)
-    det = common.detect_function(ctx.facts)
-    ids = {b.id: f for f, b in trials.items()}
-    borrow_blocks = {}
-    trial_calls = {}
-    for bb, t in det.calls():
-        f = fn_of(t) or {}
-        r = f.get("resolved") or f.get("def")
-        if r in ids:
-            fmt = ids[r]
-            trial_calls[fmt] = (bb, t)
-            tr = trace(det, t["args"][0])
-            ok = bool(tr.origin and tr.origin[0] == "call" and (fn_of(tr.origin[2]) or {}).get("local") and "Ref" in det.local_ty(tr.origin[2]["dest"]["l"]))
-            src_bb = tr.origin[1] if ok else None
-            fresh = ok and src_bb not in borrow_blocks.values()
-            borrow_blocks[fmt] = src_bb
-            ctx.ob(f"{fmt}:fresh-borrow", fresh, site(det, bb), "trial input comes from its own borrow of the handle" if fresh else "trial reuses another trial's (possibly consumed) reader")
-            if ok:
-                # the borrow accessor reaches a rewinding accessor for reader inputs
-                acc = lib.by_id.get(fn_of(tr.origin[2]).get("resolved") or fn_of(tr.origin[2])["def"])
-                cap, guard = _capture_adts(lib)
-                via_guard = any((fn_of(tt) or {}).get("impl_self_adt") == guard for _, tt in (acc.calls() if acc else []))
-                ctx.ob(f"{fmt}:borrow-rewinds", via_guard, site(acc) if acc else site(det, bb), "borrow goes through the rewinding accessor" if via_guard else "borrow does not rewind the capture reader")
-    for fmt in trials:
-        if fmt not in trial_calls:
+    det = ts.driver
+    for p in ts.problems:
+        ctx.ob(f"driver-shape:{p[:40]}", False, site(det), p)
+    for fmt in sorted(trials):
+        e = ts.entries.get(fmt)
+        if e is None:
             ctx.ob(f"{fmt}:trial-called", False, site(det), "trial is not called by the detection driver")
-    # format selection
-    fmt_adt = lib.adts.get("Format")
-    for bi in sorted(det.reach()):
-        for s in det.blocks[bi]["stmts"]:
-            if s["k"] == "assign" and s["rv"]["k"] == "aggregate" and s["rv"].get("adt") == "Format":
-                v = s["rv"]["variant"].lower()
-                if v not in trial_calls:
-                    ctx.ob(f"select:{v}", False, site(det, bi), f"Format::{s['rv']['variant']} selected without a trial")
-                    continue
-                tb, tt = trial_calls[v]
-                # the bool result: Continue payload of branch(trial result)
-                ok = False
-                for sb in det.reach():
-                    sw = det.blocks[sb]["term"]
-                    if sw["k"] != "switch" or sw.get("discr_ty") != "bool":
-                        continue
-                    tr = trace(det, sw["discr"])
-                    if tr.origin and tr.origin[0] == "call" and tr.origin[2] is tt and any(st[0] == "downcast" and st[1] == "Continue" for st in tr.steps):
-                        if det.edge_dominates(sb, "otherwise", sw["otherwise"], bi):
-                            ok = True
-                ctx.ob(f"select:{v}", ok, site(det, bi), f"Format::{s['rv']['variant']} is chosen only on the `true` edge of its own trial" if ok else f"Format::{s['rv']['variant']} can be chosen without its trial answering true")
+            continue
+        ctx.ob(f"{fmt}:fresh-borrow", e["fresh"], e["site"], "trial input comes from its own borrow of the handle" if e["fresh"] else "trial reuses another trial's (possibly consumed) reader")
+        ctx.ob(f"{fmt}:borrow-rewinds", e["rewinds"], e["acc_site"], "borrow goes through the rewinding accessor" if e["rewinds"] else "borrow does not rewind the capture reader")
+        ctx.ob(f"select:{fmt}", e["selected"], e["sel_site"], f"the {fmt} format is chosen only on the `true` edge of its own trial" if e["selected"] else f"the {fmt} format is not chosen on (only) the `true` answer of its own trial")
+    for variant, st in ts.stray:
+        ctx.ob(f"select:{variant.lower()}", False, st, f"Format::{variant} can be chosen without its trial answering true")
 
 
 def conversion_supers(lib):
@@ -393,6 +360,12 @@ def r09_5(ctx):
         ok = False
         if calls:
             dbb, dt = calls[0]
+            # `detect(..)?.ok_or(TEXT)` / ok_or_else: the text is used only when the Option is None
+            bt = b.blocks[bi]["term"]
+            if bt["k"] == "call" and (fn_of(bt) or {}).get("def") in ("std::option::Option::<T>::ok_or", "std::option::Option::<T>::ok_or_else") and any(a.get("str") == TEXT for a in bt["args"][1:]):
+                tr = trace(b, bt["args"][0])
+                if tr.origin and tr.origin[0] == "call" and tr.origin[2] is dt and any(st[0] == "downcast" and st[1] in ("Continue", "Ok") for st in tr.steps):
+                    ok = True
             # None edge of the Option inside the detection result
             for sb in b.reach():
                 sw = b.blocks[sb]["term"]
